@@ -289,11 +289,13 @@ class CodeGenerator(abc.ABC):
             if not remove_unused or self._condition(state.name)
         )
 
-    def _parameter_assignments(self, parameters: sympy.IndexedBase) -> str:
+    def _parameter_assignments(
+        self, parameters: sympy.IndexedBase, keep: typing.Iterable[str] = ()
+    ) -> str:
         return "\n".join(
             self._doprint(param.symbol, parameters[i], use_variable_prefix=True)
             for i, param in enumerate(self.ode.parameters)
-            if self._condition(param.name)
+            if self._condition(param.name) or param.name in keep
         )
 
     def _missing_variables_assignments(self):
@@ -443,7 +445,8 @@ class CodeGenerator(abc.ABC):
     ) -> str:
         rhs = self._rhs_arguments(order)
         states = self._state_assignments(rhs.states, remove_unused=False)
-        parameters = self._parameter_assignments(rhs.parameters)
+        # A requested parameter is unpacked also if nothing in this ODE uses it
+        parameters = self._parameter_assignments(rhs.parameters, keep=values)
         missing_variables = self._missing_variables_assignments()
 
         arguments = rhs.arguments
